@@ -1,9 +1,16 @@
+mod check_c09;
+mod check_c12;
+mod check_c13;
+mod check_c17;
+mod check_c18;
 mod check_sched;
+mod corpus;
 mod cmd;
 mod explore;
 mod linspec;
 mod model;
 mod model_step;
+mod net;
 mod props;
 mod props_sched;
 mod report;
@@ -218,6 +225,11 @@ fn main() {
                 "C06" => check_seq("C06", tier),
                 "C07" => check_seq("C07", tier),
                 "C08" => check_seq("C08", tier),
+                "C09" => check_c09::check(tier, nthreads()),
+                "C12" => check_c12::check(tier, nthreads()),
+                "C13" => check_c13::check(tier, nthreads()),
+                "C17" => check_c17::check(tier, nthreads()),
+                "C18" => check_c18::check(tier, nthreads()),
                 "C14s" => check_seq("C14", tier),
                 "C14" => {
                     let a = check_seq("C14", tier);
@@ -255,6 +267,58 @@ fn main() {
                     println!("{:#?}", r);
                 }
             }
+            0
+        }
+        "nettest" => {
+            use wire::{op, Req};
+            sut::set_quiet(true);
+            let mut stream = vec![];
+            stream.extend(Req::store(op::SET, b"k", b"hello", 5, 0, 0).opaque(1).bytes());
+            stream.extend(Req::get(op::GET, b"k").opaque(2).bytes());
+            stream.extend(Req::bare(op::NOOP).opaque(3).bytes());
+            {
+                let t = Instant::now();
+                let w = net::NetWorld::new(net::NetCfg::default()).unwrap();
+                let t1 = t.elapsed();
+                let mut c = w.connect().unwrap();
+                let t2 = t.elapsed();
+                c.step(&w, &stream).unwrap();
+                let t3 = t.elapsed();
+                let d = w.dump();
+                let t4 = t.elapsed();
+                drop(c);
+                drop(w);
+                let t5 = t.elapsed();
+                println!("new {:?} connect {:?} step {:?} dump {:?} drop {:?} ({})", t1, t2 - t1, t3 - t2, t4 - t3, t5 - t4, d.len());
+            }
+            let t0 = Instant::now();
+            let base = net::run_stream(net::NetCfg::default(), &[&stream], false).unwrap();
+            println!("unsegmented: {} bytes eof={} dump={:?}", base.received.len(), base.eof, base.dump.len());
+            let mut n = 0;
+            let mut diff = 0;
+            for cut in 1..stream.len() {
+                if cut < 4 {
+                    let t = Instant::now();
+                    let w = net::NetWorld::new(net::NetCfg::default()).unwrap();
+                    let t1 = t.elapsed();
+                    let mut c = w.connect().unwrap();
+                    let t2 = t.elapsed();
+                    c.step(&w, &stream[..cut]).unwrap();
+                    let t3 = t.elapsed();
+                    c.step(&w, &stream[cut..]).unwrap();
+                    let t4 = t.elapsed();
+                    drop(c);
+                    drop(w);
+                    let t5 = t.elapsed();
+                    println!("new {:?} connect {:?} step1 {:?} step2 {:?} drop {:?}", t1, t2 - t1, t3 - t2, t4 - t3, t5 - t4);
+                }
+                let r = net::run_stream(net::NetCfg::default(), &[&stream[..cut], &stream[cut..]], false).unwrap();
+                n += 1;
+                if r.received != base.received {
+                    diff += 1;
+                }
+            }
+            println!("{} cuts, {} differ, {:.3}s", n, diff, t0.elapsed().as_secs_f64());
             0
         }
         "replay" => replay(args.get(2).map(|s| s.as_str()).unwrap_or("")),
